@@ -58,18 +58,22 @@ theorem step_spec (cfg : Cfg) (s : R) (op : Op) :
     · simp [restart, M.bind, lock, h]
     · by_cases hp : s.d.phase ≥ Share
       · cases hc : cfg.restartUnlocksOnReject <;>
-          simp_all [restart, M.bind, M.pure, lock, unlock, act]
-      · simp_all [restart, M.bind, M.pure, lock, unlock, act]
+          simp_all [restart, M.bind, M.pure, lock, unlock]
+      · have hp' : ¬ (Share ≤ s.d.phase) := hp
+        have h' : (s.mutexHeld || s.readers != 0) = false := by simpa using h
+        simp only [restart, M.bind, lock, h', ge_iff_le, M.pure, unlock, act]
+        simp only [Bool.false_eq_true, if_false, if_neg hp', decide_eq_false hp', Bool.false_and]
+        rfl
   · -- SetRandomSeed
     by_cases hs : s.d.seed = 0
     · by_cases h : (s.mutexHeld || s.readers != 0) = true
       · simp [setSeed, M.bind, lock, h, hs]
-      · simp_all [setSeed, M.bind, M.pure, lock, unlock, act]
+      · simp_all [setSeed, M.bind, lock, unlock, act]
     · simp [setSeed, hs]
   · -- SetRandomSeedForNotarizedBlock
     by_cases h : (s.mutexHeld || s.readers != 0) = true
     · simp [setSeedNB, M.bind, lock, h]
-    · simp_all [setSeedNB, M.bind, M.pure, lock, unlock, act]
+    · simp_all [setSeedNB, M.bind, lock, unlock, act]
 
 theorem setPhaseF_phase (p : Int) (s : D) : (setPhaseF p s).phase = if p > s.phase then p else s.phase := by
   unfold setPhaseF; split <;> rfl
